@@ -77,21 +77,20 @@ Proof.
   assert (Hcw : forall r, r = (if p_write p
       then ({| ver := v; next_inst := next_inst s + 1;
                pyc := upd (pyc s) nm (Some {| c_who := p_who p; c_ver := v; c_inst := next_inst s |});
-               pkl := if book (p_who p) then upd (pkl s) nm (Some (next_inst s)) else pkl s |}, (p_who p, true))
+               pkl := if book (p_who p) && negb (p_raises p) then upd (pkl s) nm (Some (next_inst s)) else upd (pkl s) nm None |}, (p_who p, true))
       else ({| ver := v; next_inst := next_inst s + 1; pyc := pyc s; pkl := pkl s |}, (p_who p, true))) ->
       Inv ws (fst r) /\ snd r = (p_who p, true)).
   { intros r ->. destruct (p_write p); cbn [fst snd]; [|auto]. split; [|reflexivity]. split; cbn [pyc pkl].
     - intros nm' c Hc. destruct (name_eq_dec nm nm') as [<-|Hne].
       + rewrite upd_same in Hc. inversion Hc; subst c. cbn. auto.
       + rewrite upd_other in Hc by assumption. auto.
-    - intros nm' i Hi. destruct (book (p_who p)) eqn:Eb.
-      + destruct (name_eq_dec nm nm') as [<-|Hne].
+    - intros nm' i Hi. destruct (book (p_who p) && negb (p_raises p)) eqn:Eb.
+      + apply andb_prop in Eb as [Eb _]. destruct (name_eq_dec nm nm') as [<-|Hne].
         * rewrite upd_same in Hi. inversion Hi; subst i. rewrite upd_same. eexists; repeat split; cbn; auto.
         * rewrite upd_other in Hi by assumption. rewrite upd_other by assumption. auto.
       + destruct (name_eq_dec nm nm') as [<-|Hne].
-        * exfalso. destruct (I2 _ _ Hi) as (c0 & Hc0 & _ & Hb0). destruct (I1 _ _ Hc0) as [Hn0 Hw0].
-          rewrite (Hf _ _ Hw0 Hin Hn0) in Hb0. congruence.
-        * rewrite upd_other by assumption. auto. }
+        * rewrite upd_same in Hi. discriminate.
+        * rewrite upd_other in Hi by assumption. rewrite upd_other by assumption. auto. }
   destruct (p_caching p); cbn [negb]; [|auto].
   destruct (pyc s nm) as [c|] eqn:Ec; [|now apply Hcw].
   destruct (N.eqb (c_ver c) v); [|now apply Hcw].
@@ -124,7 +123,7 @@ Lemma plain_name_only_stock w : name_of w = [] -> w = [].
 Proof. destruct w; [reflexivity|discriminate]. Qed.
 
 (* the hypothesis is needed: two configurations with one signature but different instrumentation (recorded finding) *)
-Definition ex_p1 : proc := {| p_who := [(1, 1, (0, false))]; p_caching := true; p_write := true; p_edit := false |}.
-Definition ex_p2 : proc := {| p_who := [(1, 1, (5, false))]; p_caching := true; p_write := true; p_edit := false |}.
+Definition ex_p1 : proc := {| p_who := [(1, 1, (0, false))]; p_caching := true; p_write := true; p_edit := false; p_raises := false |}.
+Definition ex_p2 : proc := {| p_who := [(1, 1, (5, false))]; p_caching := true; p_write := true; p_edit := false; p_raises := false |}.
 Theorem fresh_refuted : exists ps, run fs0 ps <> map fresh_obs ps.
 Proof. exists [ex_p1; ex_p2]. vm_compute. discriminate. Qed.
